@@ -20,6 +20,15 @@ func (x *Exec) intercept(st *State, fn *ssa.Function, args []*Term) ([]Outcome, 
 	c := x.c
 	ret := func(v *Term) ([]Outcome, bool) { return []Outcome{{st: st, kind: ORet, val: v}}, true }
 	switch o.Name() {
+	case "P2", "P3", "P4":
+		return nil, false // executable helpers: run their bodies
+	case "W":
+		// W[T](x): x tagged with its static type T (kept even when T is an interface type)
+		t := types.Unalias(fn.TypeArgs()[0])
+		name := "box_" + shortName(types.TypeString(t, nil))
+		c.boxTypes[name] = t
+		c.declare(name, []*Sort{args[0].Sort}, c.Iface)
+		return ret(c.mk(&Term{Op: "box", Name: name, Args: []*Term{args[0]}, Sort: c.Iface}))
 	case "Eq":
 		return ret(x.specEq(st, args[0], args[1], 0))
 	case "Same":
@@ -55,7 +64,9 @@ func (x *Exec) intercept(st *State, fn *ssa.Function, args []*Term) ([]Outcome, 
 		return abortOut(st, "Calls needs a literal"), true
 	case "Panics":
 		// Panics(func() any { … }) : the thunk panics
-		outs := x.applyFn(st.clone(), x.unboxAny(args[0]), nil, false)
+		ps := st.clone()
+		ps.recoverDepth++
+		outs := x.applyFn(ps, x.unboxAny(args[0]), nil, false)
 		var disj []*Term
 		for _, o := range outs {
 			extra := c.And(o.st.pc[len(st.pc):]...)
@@ -128,6 +139,9 @@ func (x *Exec) eqByType(st *State, t types.Type, a, b *Term, depth int) *Term {
 	t = types.Unalias(t)
 	if _, ok := isOpaque(t); ok {
 		return c.Eq(a, b)
+	}
+	if isFpNamed(t, "Either") {
+		return x.eqEither(st, t, a, b, depth)
 	}
 	switch u := t.Underlying().(type) {
 	case *types.Struct:
@@ -208,16 +222,19 @@ func (x *Exec) applyMerged(st *State, f *Term, args []*Term) (*Term, *Term) {
 }
 
 func (x *Exec) applyMerged3(st *State, f *Term, args []*Term) (*Term, *Term, *Term) {
+	s2 := st.clone()
+	s2.trace = nil
+	outs := x.applyFn(s2, f, args, false)
+	return x.mergeOuts(st, outs, f.Sort.Result)
+}
+
+// mergeOuts merges the outcomes of an evaluation started from (a clone of) st.
+func (x *Exec) mergeOuts(st *State, outs []Outcome, resSort *Sort) (*Term, *Term, *Term) {
 	c := x.c
 	base := len(st.pc)
 	baseF := len(st.facts)
 	facts := c.True
-	s2 := st.clone()
-	s2.trace = nil
-	outs := x.applyFn(s2, f, args, false)
-	var val *Term
 	def := c.False
-	// build from the last outcome backwards
 	type br struct {
 		cond *Term
 		v    *Term
@@ -240,10 +257,12 @@ func (x *Exec) applyMerged3(st *State, f *Term, args []*Term) (*Term, *Term, *Te
 		}
 	}
 	if len(brs) == 0 {
-		// never returns: any value
-		return c.zeroOf(f.Sort.Result), c.False, facts
+		if resSort == nil {
+			return nil, nil, nil
+		}
+		return c.zeroOf(resSort), c.False, facts
 	}
-	val = brs[len(brs)-1].v
+	val := brs[len(brs)-1].v
 	for i := len(brs) - 2; i >= 0; i-- {
 		val = c.Ite(brs[i].cond, brs[i].v, val)
 	}
@@ -304,7 +323,7 @@ func (x *Exec) eqT(st *State, fa, fb *Term, _ bool) []Outcome {
 	s1 := st.clone()
 	s1.trace = nil
 	for _, oa := range x.applyFn(s1, fa, nil, false) {
-		if oa.kind == OAbort {
+		if oa.kind == OAbort || oa.kind == ODiverge {
 			res = append(res, oa)
 			continue
 		}
@@ -312,7 +331,7 @@ func (x *Exec) eqT(st *State, fa, fb *Term, _ bool) []Outcome {
 		tra := s2.trace
 		s2.trace = nil
 		for _, ob := range x.applyFn(s2, fb, nil, false) {
-			if ob.kind == OAbort {
+			if ob.kind == OAbort || ob.kind == ODiverge {
 				res = append(res, ob)
 				continue
 			}
@@ -406,4 +425,56 @@ func (x *Exec) noteTrusted(s string) {
 		}
 	}
 	x.trustedUsed = append(x.trustedUsed, s)
+}
+
+// invokeMerged calls a method of an interface value and merges the paths.
+func (x *Exec) invokeMerged(st *State, recv *Term, recvType types.Type, name string) (*Term, *Term) {
+	ms := types.NewMethodSet(recvType)
+	var m *types.Func
+	for i := 0; i < ms.Len(); i++ {
+		if ms.At(i).Obj().Name() == name {
+			m = ms.At(i).Obj().(*types.Func)
+		}
+	}
+	if m == nil {
+		return nil, nil
+	}
+	s2 := st.clone()
+	s2.trace = nil
+	outs := x.invoke(s2, recv, m, nil, recvType)
+	var rs *Sort
+	if sel := x.prog.SSA.MethodSets.MethodSet(recvType).Lookup(m.Pkg(), m.Name()); sel != nil {
+		if sig := sel.Type().(*types.Signature); sig.Results().Len() == 1 {
+			rs = x.c.SortOf(sig.Results().At(0).Type())
+		}
+	}
+	v, d, facts := x.mergeOuts(st, outs, rs)
+	if v == nil {
+		return nil, nil
+	}
+	x.mergedFacts = append(x.mergedFacts, facts)
+	return v, d
+}
+
+// eqEither: observational equality of fp.Either values.
+func (x *Exec) eqEither(st *State, t types.Type, a, b *Term, depth int) *Term {
+	c := x.c
+	n := types.Unalias(t).(*types.Named)
+	lt, rt := n.TypeArgs().At(0), n.TypeArgs().At(1)
+	mark := len(x.mergedFacts)
+	la, _ := x.invokeMerged(st, a, t, "IsLeft")
+	lb, _ := x.invokeMerged(st, b, t, "IsLeft")
+	ra, _ := x.invokeMerged(st, a, t, "IsRight")
+	rb, _ := x.invokeMerged(st, b, t, "IsRight")
+	ga, _ := x.invokeMerged(st, a, t, "Get")
+	gb, _ := x.invokeMerged(st, b, t, "Get")
+	fa, _ := x.invokeMerged(st, a, t, "Left")
+	fb, _ := x.invokeMerged(st, b, t, "Left")
+	if la == nil || lb == nil || ra == nil || rb == nil || ga == nil || gb == nil || fa == nil || fb == nil {
+		return c.Eq(a, b)
+	}
+	facts := x.takeFacts(mark)
+	return c.Implies(facts, c.And(c.Eq(la, lb), c.Eq(ra, rb),
+		c.Implies(ra, x.eqByType(st, rt, ga, gb, depth+1)),
+		c.Implies(la, x.eqByType(st, lt, fa, fb, depth+1))))
 }
